@@ -16,8 +16,13 @@ VARIABLES l, cur, ref      \* cur: line of the current "bam" event; ref: first r
 
 LenIn(b, cn) == b.lens[CHOOSE k \in DOMAIN b.contigs : b.contigs[k] = cn]
 
-GotMatrix(e) == LET cells == { << e.counts[k].bin, e.counts[k].sample >> : k \in DOMAIN e.counts }
-                IN [cell \in cells |-> LET g(x) == IF << x.bin, x.sample >> = cell THEN x.n ELSE 0 IN SumSeqF(e.counts, g)]
+(* records without SM tag (sample "") belong to no cell; the code books them under a placeholder column ('bulk' /
+   'No_Sample'). Whatever its name: every column that is not a real cell of the BAM is read as the placeholder "",
+   so a real cell's column must hold exactly its own records *)
+RealCells(b) == { b.recs[k].sample : k \in DOMAIN b.recs } \ { "" }
+Norm(b, s) == IF s \in RealCells(b) THEN s ELSE ""
+GotMatrix(e, b) == LET cells == { << e.counts[k].bin, Norm(b, e.counts[k].sample) >> : k \in DOMAIN e.counts }
+                   IN [cell \in cells |-> LET g(x) == IF << x.bin, Norm(b, x.sample) >> = cell THEN x.n ELSE 0 IN SumSeqF(e.counts, g)]
 At(m, cell) == IF cell \in DOMAIN m THEN m[cell] ELSE 0
 
 RunPre(e, b) == IF ~CellsDisjoint(b.recs) THEN "same_cell_in_several_bams_outside_the_statement"
@@ -29,7 +34,7 @@ Kept(e, b) == SelectSeq(b.recs, LAMBDA r : r.contig \notin SeqSet(e.cfg.skip))
 RunVerdict(e, b, r0) ==
     LET lenOf(cn) == LenIn(b, cn)
         exp == ExpectedMatrixOver(Kept(e, b), e.cfg, lenOf)
-        got == GotMatrix(e)
+        got == GotMatrix(e, b)
         cells == DOMAIN exp \cup DOMAIN got
     IN IF e.raised # "" THEN "Inv_C12_Total_NoRaise"
        ELSE IF \E cell \in cells : At(got, cell) > At(exp, cell) THEN "Inv_C12_Matrix_overcount"
@@ -53,8 +58,13 @@ LoneProperRead2(b) ==
     \E k \in DOMAIN b.recs : /\ ~b.recs[k].r1 /\ b.recs[k].proper
                              /\ ~\E j \in DOMAIN b.recs : /\ b.recs[j].r1 /\ b.recs[j].name = b.recs[k].name
                                                           /\ b.recs[j].contig = b.recs[k].contig /\ b.recs[j].file = b.recs[k].file
+(* get_binned_counts pairs records by query name (mate_iter) and plans its jobs from the first BAM: BAMs that hold
+   supplementary / secondary read-1 records (shared query names) or BAM lists with differing headers are observations *)
+GbcOutside(b) == IF b.hetero THEN "ext_get_binned_counts_bam_list_with_differing_headers_"
+                 ELSE IF \E k \in DOMAIN b.recs : b.recs[k].extra THEN "ext_get_binned_counts_shared_query_names_"
+                 ELSE ""
 GbcVerdict(e, b) ==
-    LET got == GotMatrix(e)
+    LET got == GotMatrix(e, b)
         cells == DOMAIN got \cup { GbcCell(b.recs[k], e.bin) : k \in DOMAIN b.recs }
     IN IF e.raised # "" THEN "Inv_C12_Total_NoRaise_get_binned_counts"
        ELSE IF \E cell \in cells : At(got, cell) > GbcCount(b.recs, e.bin, FALSE, cell) THEN "Inv_C12_Matrix_overcount_get_binned_counts"
@@ -71,7 +81,8 @@ TNext == /\ l <= Len(Log)
                 (IF RunPre(e, Log[cur]) # "ok" THEN Note(l, e.tid, RunPre(e, Log[cur]))
                  ELSE Judge(l, RunVerdict(e, Log[cur], IF ref > 0 THEN Log[ref] ELSE e)))
             ELSE IF e.ev = "gbc" THEN
-                (IF e.regions = "none" /\ LoneProperRead2(Log[cur])
+                (IF GbcOutside(Log[cur]) # "" THEN Note(l, e.tid, GbcOutside(Log[cur]) \o GbcVerdict(e, Log[cur]))
+                 ELSE IF e.regions = "none" /\ LoneProperRead2(Log[cur])
                  THEN Note(l, e.tid, IF GbcVerdict(e, Log[cur]) = "ok" THEN "ext_lone_proper_read2_ok"
                                      ELSE "ext_lone_proper_read2_counted_as_read1_" \o GbcVerdict(e, Log[cur]))
                  ELSE IF e.regions = "none" THEN Judge(l, GbcVerdict(e, Log[cur]))
